@@ -25,6 +25,7 @@ import (
 	"github.com/fabiolb/fabio/cert"
 	"pgregory.net/rapid"
 
+	"verifharness/fakeconsul"
 	"verifharness/hx"
 )
 
@@ -553,7 +554,7 @@ func firstByFileName(set []certSpec) string {
 }
 
 func TestC11SourceHistories(t *testing.T) {
-	N := hx.Pick(6, 30)
+	N := hx.Pick(8, 30)
 	var wg sync.WaitGroup
 	errs := make(chan string, N)
 	incon := make(chan string, N)
@@ -562,8 +563,8 @@ func TestC11SourceHistories(t *testing.T) {
 		wg.Add(1)
 		go func() {
 			defer wg.Done()
-			kind := []string{"path", "http"}[h%2]
-			bad := []string{"broken-pem", "one-of-two-truncated", "truncated", "key-mismatch", "one-of-two-key-mismatch", "missing-key", "garbage", "good-plus-garbage-file", "one-of-two-empty-file", "all-files-empty"}[(h/2+int(hx.Seed()))%10]
+			kind := []string{"path", "http", "consul"}[h%3]
+			bad := []string{"broken-pem", "one-of-two-truncated", "truncated", "key-mismatch", "one-of-two-key-mismatch", "missing-key", "garbage", "good-plus-garbage-file", "one-of-two-empty-file", "all-files-empty"}[(h/3+int(hx.Seed()))%10]
 			gen1, gen2 := 100+2*h, 101+2*h
 			set1 := []certSpec{{cn: "one.example.com", sans: []string{"*.one.example.com"}, id: fmt.Sprintf("%d/0", gen1)}, {cn: "two.example.com", id: fmt.Sprintf("%d/1", gen1)}}
 			set2 := []certSpec{{cn: "three.example.com", id: fmt.Sprintf("%d/0", gen2)}, {cn: "one.example.com", id: fmt.Sprintf("%d/1", gen2)}}
@@ -575,14 +576,56 @@ func TestC11SourceHistories(t *testing.T) {
 			defer os.RemoveAll(dir)
 			certDir := filepath.Join(dir, "cert")
 			os.Mkdir(certDir, 0o700)
+			// some path sources sit behind a release symlink (cert=<dir>/current with current -> rel1):
+			// a new set is then published by writing rel2 and re-pointing the link
+			viaLink := kind == "path" && (h/3)%2 == 1
+			srcPath, release := dir, 1
+			if viaLink {
+				os.MkdirAll(filepath.Join(dir, "rel1", "cert"), 0o700)
+				os.Symlink("rel1", filepath.Join(dir, "current"))
+				certDir, srcPath = filepath.Join(dir, "rel1", "cert"), filepath.Join(dir, "current")
+			}
+			repoint := func() {
+				release++
+				rel := fmt.Sprintf("rel%d", release)
+				certDir = filepath.Join(dir, rel, "cert")
+				os.MkdirAll(certDir, 0o700)
+			}
+			relink := func() {
+				tmp := filepath.Join(dir, "current.tmp")
+				os.Remove(tmp)
+				os.Symlink(fmt.Sprintf("rel%d", release), tmp)
+				os.Rename(tmp, filepath.Join(dir, "current"))
+			}
 			var listHits int64
 			var src cert.Source
 			prefix := []string{"/", "/certs/", "/path/to/cert/"}[(h/2)%3] // directory of the list file on the http server
 			var current atomic.Value
 			current.Store(goodFiles(set1))
-			if kind == "path" {
+			var fc *fakeconsul.Server
+			publish := func(fs fileSet) {
+				current.Store(fs)
+				switch kind {
+				case "path":
+					writeDir(certDir, fs)
+				case "consul":
+					fc.MutateKV(func(kv map[string]string) {
+						for k := range kv {
+							delete(kv, k)
+						}
+						for name, b := range fs {
+							kv["certs/"+name] = string(b)
+						}
+					})
+				}
+			}
+			if kind == "consul" {
+				fc = fakeconsul.New()
+				publish(goodFiles(set1))
+				src = cert.ConsulSource{CertURL: "http://" + fc.Addr() + "/v1/kv/certs"}
+			} else if kind == "path" {
 				writeDir(certDir, current.Load().(fileSet))
-				src = cert.PathSource{Path: dir, Refresh: time.Second}
+				src = cert.PathSource{Path: srcPath, Refresh: time.Second}
 			} else {
 				srv := httptest.NewServer(http.HandlerFunc(func(w http.ResponseWriter, r *http.Request) {
 					fs := current.Load().(fileSet)
@@ -643,10 +686,7 @@ func TestC11SourceHistories(t *testing.T) {
 			}
 			// 2. unusable material for ~2.5 s
 			hits0 := atomic.LoadInt64(&listHits)
-			current.Store(badFiles(bad, set1))
-			if kind == "path" {
-				writeDir(certDir, badFiles(bad, set1))
-			}
+			publish(badFiles(bad, set1))
 			start := time.Now()
 			for time.Since(start) < 2500*time.Millisecond {
 				if got := served("one.example.com"); got != set1[0].id {
@@ -668,9 +708,20 @@ func TestC11SourceHistories(t *testing.T) {
 				}
 			}
 			// 3. a new good set takes effect without restart
-			current.Store(goodFiles(set2))
-			if kind == "path" {
+			if kind == "consul" && h%2 == 0 {
+				// the Consul servers were restored from a snapshot in the meantime: indexes restart low
+				fc.Rewind()
+				hx.Class("history:consul-index-goes-backwards-before-the-next-set")
+			}
+			if viaLink {
+				// the next release: written completely, then the link is re-pointed
+				repoint()
 				writeDir(certDir, goodFiles(set2))
+				relink()
+				current.Store(goodFiles(set2))
+				hx.Class("history:path-behind-a-release-symlink")
+			} else {
+				publish(goodFiles(set2))
 			}
 			if !waitFor("three.example.com", set2[0].id, 15*time.Second) {
 				errs <- fmt.Sprintf("a good set published after unusable material never took effect (three.example.com served %s) (%s)", served("three.example.com"), ctx)
@@ -700,10 +751,7 @@ func TestC11SourceHistories(t *testing.T) {
 					}
 				}
 				if next != nil {
-					current.Store(next)
-					if kind == "path" {
-						writeDir(certDir, next)
-					}
+					publish(next)
 					if !waitFor("three.example.com", set3[0].id, 15*time.Second) || !waitFor("one.example.com", set3[1].id, 15*time.Second) {
 						errs <- fmt.Sprintf("a renewal with unchanged file names and sizes never took effect: three.example.com still served %s, want %s (%s)", served("three.example.com"), set3[0].id, ctx)
 						return
